@@ -397,7 +397,7 @@ def new_set(st, items, et=None):
     if st.spec:
         return Val(T.TSetV(et), sv)
     ref = st.new_ref('set')
-    st.set_store(ref, et, sv)
+    st.set_store(ref, et, sv, z3.IntVal(0) if not items else None)
     return Val(T.TSet(et), ref)
 
 
